@@ -581,8 +581,16 @@ impl ArrayImpl {
                     return Err(ConvertError::NoCast("VARCHAR", data_type.clone()));
                 }
             },
-            Self::Blob(_) => todo!("cast array"),
-            Self::Vector(_) => todo!("cast array"),
+            Self::Blob(a) => match data_type {
+                Type::Blob => self.clone(),
+                Type::String => Self::new_string(unary_op(a.as_ref(), |b| b.to_string())),
+                _ => return Err(ConvertError::NoCast("BLOB", data_type.clone())),
+            },
+            Self::Vector(a) => match data_type {
+                Type::Vector(_) => self.clone(),
+                Type::String => Self::new_string(unary_op(a.as_ref(), |v| v.to_string())),
+                _ => return Err(ConvertError::NoCast("VECTOR", data_type.clone())),
+            },
             Self::Decimal(a) => match data_type {
                 Type::Bool => Self::new_bool(clear_null(unary_op(a.as_ref(), |&d| !d.is_zero()))),
                 Type::Int16 => Self::new_int16(try_unary_op(a.as_ref(), |&d| {
